@@ -684,4 +684,308 @@ Proof.
            eapply frame_weaken; [| |exact F']; incl_tac.
 Qed.
 
+(* ---------- recur pass of the root ---------- *)
+
+Lemma root_pass (U : list (aitem T)) f s o s' r :
+  recur_pass tk f s 0%N = (s', r) -> oof s' = false ->
+  deeds (get_sched s 0%N) = map it_deed U ->
+  Forall (it_ok s) U -> Forall (it_wf (defs s)) U -> NoDup (0%N :: its_ids U) ->
+  out_ok s o ->
+  exists U' o', its_pass tk (tabs z0) (tyme s) U o = (U', o') /\
+    r = GReturn /\ deeds (get_sched s' 0%N) = map it_deed U' /\
+    Forall (it_ok s') U' /\ out_ok s' o' /\ frame (its_ids U) (0%N :: its_ids U) s s'.
+Proof.
+  intros E O Dq G W ND OK.
+  destruct f as [|f]; [rewrite recur_pass_O in E; inversion E; subst; discriminate|].
+  rewrite recur_pass_S in E. cbv zeta in E.
+  set (s1 := set_deeds s 0%N (deeds (get_sched s 0%N) ++ [DMark])) in *.
+  assert (F1 : frame [] [0%N] s s1) by (apply frame_deeds; [now left|apply frame_refl]).
+  assert (Dq1 : deeds (get_sched s1 0%N) = map it_deed U ++ DMark :: []).
+  { unfold s1. rewrite deeds_set_deeds_same. now rewrite Dq. }
+  assert (G1 : Forall (it_ok s1) U).
+  { eapply its_ok_frame; [exact F1| |exact G]. intros x Hx. split; [intros []|].
+    intros [Heq|[]]. subst x. apply NoDup_cons_iff in ND as [N0 _]. contradiction. }
+  destruct (its_loop U f s1 [] o s' r E O Dq1 G1 W ND (ok_deeds _ _ _ _ OK))
+    as (U' & o' & Hp & -> & Dq' & G' & OK' & F').
+  exists U', o'. split; [exact Hp|]. split; [reflexivity|]. split; [exact Dq'|].
+  split; [exact G'|]. split; [exact OK'|].
+  eapply frame_trans; [eapply frame_weaken; [| |exact F1]; incl_tac|exact F'].
+Qed.
+
+(* ---------- enter ---------- *)
+
+Lemma oof_gen_start_enter f s0 i sid rest s' r :
+  (let '(s1, g) := gen_start tk f s0 i in
+   match g with
+   | GYield _ => enter_own tk f (set_deeds s1 sid (deeds (get_sched s1 sid) ++ [DDeed i (tyme s1)])) sid rest
+   | GReturn => enter_own tk f s1 sid rest
+   | GRaise kbd => (s1, GRaise kbd)
+   | GFuel => (s1, GFuel)
+   end) = (s', r) -> oof s' = false -> oof (fst (gen_start tk f s0 i)) = false.
+Proof.
+  destruct (gen_start tk f s0 i) as [s1 g]. cbn [fst].
+  destruct g; intros E O; try (inversion E; subst; assumption); apply oof_enter_own in E; assumption.
+Qed.
+
+Lemma enter_leaf_step f s sid (l : leaf T) rest s' r o :
+  enter_own tk (S f) s sid (lf_id l :: rest) = (s', r) -> oof s' = false ->
+  get_gen s (lf_id l) = GNew -> leaf_in (defs s) l -> In (lf_id l) vis -> out_ok s o ->
+  exists s2 ov o', lf_enter (tyme s) l o = (ov, o') /\
+    enter_own tk f s2 sid rest = (s', r) /\
+    deeds (get_sched s2 sid) = deeds (get_sched s sid) ++ match ov with Some v => [lv_deed v] | None => [] end /\
+    match ov with Some v => lv_ok s2 v /\ v_leaf v = l | None => True end /\
+    out_ok s2 o' /\ frame [lf_id l] [sid] s s2.
+Proof.
+  intros E O G [D P] V OK.
+  rewrite enter_own_S in E. cbv zeta in E.
+  pose proof (oof_gen_start_enter _ _ _ _ _ _ _ E O) as O1.
+  destruct (gen_start tk f (set_done s (lf_id l) (Some false)) (lf_id l)) as [s1 g] eqn:Es. cbn [fst] in O1.
+  pose proof (leaf_start _ _ _ _ _ _ _ Es O1 G D (pure_nth _ _ P)) as L.
+  assert (OK0 : out_ok (emit (set_gen (set_done s (lf_id l) (Some false)) (lf_id l) (GRun 0)) Enter (lf_id l))
+                       (o_emit (o_done o (lf_id l) (Some false)) Enter (lf_id l) (tyme s))).
+  { apply (ok_emit_vis (set_gen (set_done s (lf_id l) (Some false)) (lf_id l) (GRun 0)) _ Enter (lf_id l) V).
+    apply ok_gen. now apply ok_done_vis. }
+  unfold lf_enter.
+  destruct (f_out (nth 0 (lf_script l) default_step)) as [x|rr| |] eqn:Fo; try contradiction.
+  - destruct L as [-> ->].
+    eexists _, _, _. split; [reflexivity|]. split; [exact E|].
+    split; [rewrite deeds_set_deeds_same; reflexivity|].
+    split; [split; [|reflexivity]|split].
+    + unfold lv_ok; cbn [v_leaf v_pc lv_id]. rewrite gen_set_deeds. apply gen_set_gen_same.
+    + apply ok_deeds, ok_gen. exact OK0.
+    + apply frame_deeds; [now left|]. apply frame_gen; [now left|]. apply frame_emit.
+      apply frame_gen; [now left|]. apply frame_done. apply frame_refl.
+  - destruct L as [-> ->].
+    eexists _, _, _. split; [reflexivity|]. split; [exact E|].
+    split; [rewrite app_nil_r; reflexivity|].
+    split; [exact I|split].
+    + apply (ok_return _ _ l rr (lf_id l) eq_refl V OK0).
+    + cbv zeta. apply frame_done. apply frame_gen; [now left|]. do 3 apply frame_emit.
+      apply frame_gen; [now left|]. apply frame_done. apply frame_refl.
+Qed.
+
+Lemma lfs_enter_own sid : forall (ls : list (leaf T)) f s o s' r,
+  enter_own tk f s sid (map lf_id ls) = (s', r) -> oof s' = false ->
+  Forall (fun l => get_gen s (lf_id l) = GNew) ls -> Forall (leaf_in (defs s)) ls ->
+  NoDup (map lf_id ls) -> Forall (fun l => In (lf_id l) vis) ls ->
+  out_ok s o ->
+  exists vs o', lfs_enter (tyme s) ls o = (vs, o') /\ r = GReturn /\
+    deeds (get_sched s' sid) = deeds (get_sched s sid) ++ map lv_deed vs /\
+    Forall (lv_ok s') vs /\ out_ok s' o' /\ frame (map lf_id ls) [sid] s s'.
+Proof.
+  induction ls as [|l ls IH]; intros f s o s' r E O G D ND V OK.
+  - cbn [map] in E.
+    destruct f as [|f]; [rewrite enter_own_O in E; inversion E; subst; discriminate|].
+    rewrite enter_own_S in E. inversion E; subst s' r.
+    exists [], o. split; [reflexivity|]. split; [reflexivity|].
+    split; [now rewrite app_nil_r|]. split; [constructor|]. split; [exact OK|apply frame_refl].
+  - cbn [map] in E, ND.
+    destruct f as [|f]; [rewrite enter_own_O in E; inversion E; subst; discriminate|].
+    apply Forall_cons_iff in G as [Gl GU]. apply Forall_cons_iff in D as [Dl DU].
+    apply NoDup_cons_iff in ND as [NDl NDU]. apply Forall_cons_iff in V as [Vl VU].
+    destruct (enter_leaf_step f s sid l _ s' r o E O Gl Dl Vl OK)
+      as (s2 & ov & o1 & Hst & E2 & Dq2 & Hov & OK2 & F2).
+    assert (GU2 : Forall (fun l => get_gen s2 (lf_id l) = GNew) ls).
+    { rewrite Forall_forall in *. intros u Hu. destruct F2 as (_ & _ & FG & _).
+      rewrite FG; [now apply GU|]. intros [Heq|[]]. apply NDl. rewrite Heq. now apply in_map. }
+    assert (DU2 : Forall (leaf_in (defs s2)) ls) by (destruct F2 as (_ & -> & _); exact DU).
+    assert (T2 : tyme s2 = tyme s) by (destruct F2 as (-> & _); reflexivity).
+    destruct (IH f s2 o1 s' r E2 O GU2 DU2 NDU VU OK2) as (vs & o' & Hp & -> & Dq' & G' & OK' & F').
+    rewrite T2 in Hp.
+    assert (FF : frame (lf_id l :: map lf_id ls) [sid] s s').
+    { eapply frame_trans.
+      - eapply frame_weaken; [| |exact F2]; [intros x [->|[]]; now left|apply incl_refl].
+      - eapply frame_weaken; [| |exact F']; [apply incl_tl, incl_refl|apply incl_refl]. }
+    cbn [lfs_enter map]. rewrite Hst, Hp. rewrite Dq', Dq2, <- app_assoc.
+    destruct ov as [v|].
+    + destruct Hov as [Gv Lv].
+      eexists _, _. split; [reflexivity|]. split; [reflexivity|]. split; [reflexivity|].
+      split; [|split; assumption].
+      constructor; [|exact G'].
+      eapply lv_ok_frame; [exact F'| |exact Gv]. unfold lv_id. rewrite Lv. exact NDl.
+    + eexists _, _. split; [reflexivity|]. split; [reflexivity|]. split; [reflexivity|].
+      split; [exact G'|split; assumption].
+Qed.
+
+Definition g_ids (g : gitem T) : list id :=
+  match g with GLeaf l => [lf_id l] | GGroup n kids => n :: map lf_id kids end.
+Definition gs_ids (gs : list (gitem T)) : list id := flat_map g_ids gs.
+Definition g_wf (D : amap (fdef T)) (g : gitem T) : Prop :=
+  match g with
+  | GLeaf l => leaf_in D l /\ In (lf_id l) vis
+  | GGroup n kids =>
+    ~ In n vis /\ (exists kids0, get D n = Some (FNest z0 false kids0)) /\
+    Forall (leaf_in D) kids /\ Forall (fun l => In (lf_id l) vis) kids
+  end.
+(* before enter: the DoDoer's doers are its kids, its deque is empty *)
+Definition g_st s (g : gitem T) : Prop :=
+  match g with
+  | GLeaf _ => True
+  | GGroup n kids => doers (get_sched s n) = map lf_id kids /\ deeds (get_sched s n) = []
+  end.
+
+Lemma group_start f s n kids0 (kids : list (leaf T)) o s' r :
+  gen_start tk f s n = (s', r) -> oof s' = false ->
+  get_gen s n = GNew -> get (defs s) n = Some (FNest z0 false kids0) ->
+  doers (get_sched s n) = map lf_id kids -> deeds (get_sched s n) = [] ->
+  Forall (fun l => get_gen s (lf_id l) = GNew) kids -> Forall (leaf_in (defs s)) kids ->
+  NoDup (map lf_id kids) -> Forall (fun l => In (lf_id l) vis) kids -> ~ In n vis ->
+  out_ok s o ->
+  exists kids' o', lfs_enter (tyme s) kids o = (kids', o') /\ r = GYield (Some (tabs z0)) /\
+    get_gen s' n = GSusp 1 /\ deeds (get_sched s' n) = map lv_deed kids' /\
+    Forall (lv_ok s') kids' /\ out_ok s' o' /\ frame (n :: map lf_id kids) [n] s s'.
+Proof.
+  intros E O G D Do Dq GK DK ND V NV OK.
+  assert (NK : forall l, In l kids -> lf_id l <> n).
+  { intros l Hl Heq. rewrite Forall_forall in V. apply NV. rewrite <- Heq. now apply V. }
+  destruct f as [|f]; [rewrite gen_start_O in E; inversion E; subst; discriminate|].
+  rewrite gen_start_S in E. unfold startable in E. rewrite G in E. cbn [negb] in E. rewrite D in E.
+  cbv zeta in E.
+  set (s1 := emit (set_gen s n (GRun 0)) Enter n) in *.
+  change (doers (get_sched s1 n)) with (doers (get_sched s n)) in E. rewrite Do in E.
+  destruct (enter_own tk f s1 n (map lf_id kids)) as [s2 g] eqn:Ee.
+  assert (O2 : oof s2 = false).
+  { destruct g; inversion E; subst s'; rewrite ?oof_set_gen, ?oof_emit in O; try exact O.
+    apply oof_close_own in O. destruct kbd; exact O. }
+  assert (F1 : frame [n] [n] s s1).
+  { unfold s1. apply frame_emit. apply frame_gen; [now left|]. apply frame_refl. }
+  assert (GK1 : Forall (fun l => get_gen s1 (lf_id l) = GNew) kids).
+  { rewrite Forall_forall in *. intros l Hl. unfold s1. rewrite gen_emit, gen_set_gen_other; [now apply GK|now apply NK]. }
+  assert (OK1 : out_ok s1 o) by (unfold s1; apply ok_emit_invis; [exact NV|now apply ok_gen]).
+  destruct (lfs_enter_own n kids f s1 o s2 g Ee O2 GK1 DK ND V OK1)
+    as (kids' & o' & Hp & -> & Dq2 & K2 & OK2 & F2).
+  change (tyme s1) with (tyme s) in Hp. change (get_sched s1 n) with (get_sched s n) in Dq2.
+  rewrite Dq in Dq2. cbn [app] in Dq2.
+  inversion E; subst s' r; clear E.
+  exists kids', o'. split; [exact Hp|]. split; [reflexivity|].
+  split; [apply gen_set_gen_same|]. split; [rewrite sched_set_gen; exact Dq2|].
+  split; [|split].
+  - eapply lvs_ok_frame; [| |exact K2].
+    + apply (frame_gen [n] [n] s2 s2 n (GSusp 1)); [now left|apply frame_refl].
+    + intros v Hv [Heq|[]]. apply lfs_enter_subl in Hp.
+      apply (NK (v_leaf v)); [|now symmetry].
+      eapply subl_In; [exact Hp|now apply in_map].
+  - now apply ok_gen.
+  - apply frame_gen; [now left|].
+    eapply frame_trans.
+    + eapply frame_weaken; [| |exact F1]; [intros x [->|[]]; now left|apply incl_refl].
+    + eapply frame_weaken; [| |exact F2]; [apply incl_tl, incl_refl|apply incl_refl].
+Qed.
+
+Lemma gs_st_frame Xg Xs s s' (gs : list (gitem T)) :
+  frame Xg Xs s s' -> (forall x, In x (gs_ids gs) -> ~ In x Xs) -> Forall (g_st s) gs -> Forall (g_st s') gs.
+Proof.
+  intros F Hn L. rewrite Forall_forall in *. intros g Hg. specialize (L g Hg).
+  destruct g as [l|n kids]; cbn [g_st] in *; [exact I|].
+  destruct F as (_ & _ & _ & FS). rewrite FS; [exact L|].
+  apply Hn. unfold gs_ids. apply in_flat_map. exists (GGroup n kids). split; [exact Hg|now left].
+Qed.
+
+Ltac incl_gs :=
+  let x := fresh "x" in let Hx := fresh "Hx" in
+  intros x Hx; unfold gs_ids in Hx |- *; cbn [flat_map g_ids In app] in Hx |- *;
+  rewrite ?in_app_iff in Hx; rewrite ?in_app_iff; cbn [In] in Hx |- *; tauto.
+
+Lemma gs_enter_own : forall (gs : list (gitem T)) f s o s' r,
+  enter_own tk f s 0%N (map g_top gs) = (s', r) -> oof s' = false ->
+  (forall x, In x (gs_ids gs) -> get_gen s x = GNew) ->
+  Forall (g_wf (defs s)) gs -> Forall (g_st s) gs ->
+  NoDup (0%N :: gs_ids gs) -> out_ok s o ->
+  exists its o', gs_enter (tyme s) gs o = (its, o') /\ r = GReturn /\
+    deeds (get_sched s' 0%N) = deeds (get_sched s 0%N) ++ map it_deed its /\
+    Forall (it_ok s') its /\ out_ok s' o' /\ frame (gs_ids gs) (0%N :: gs_ids gs) s s'.
+Proof.
+  induction gs as [|g gs IH]; intros f s o s' r E O GN W St ND OK.
+  - cbn [map] in E.
+    destruct f as [|f]; [rewrite enter_own_O in E; inversion E; subst; discriminate|].
+    rewrite enter_own_S in E. inversion E; subst s' r.
+    exists [], o. split; [reflexivity|]. split; [reflexivity|].
+    split; [now rewrite app_nil_r|]. split; [constructor|]. split; [exact OK|apply frame_refl].
+  - cbn [map] in E.
+    destruct f as [|f]; [rewrite enter_own_O in E; inversion E; subst; discriminate|].
+    apply Forall_cons_iff in W as [Wg WU]. apply Forall_cons_iff in St as [Sg SU].
+    apply NoDup_cons_iff in ND as [N0 ND]. unfold gs_ids in ND, N0, GN. cbn [flat_map] in ND, N0, GN.
+    fold (gs_ids gs) in ND, N0, GN.
+    pose proof (NoDup_app_disj _ _ ND) as Disj.
+    assert (NDU : NoDup (0%N :: gs_ids gs)).
+    { constructor; [intro; apply N0; apply in_or_app; now right|]. eapply NoDup_app_r; exact ND. }
+    destruct g as [l|n kids]; cbn [g_top g_wf g_st g_ids] in *.
+    + destruct Wg as [Dl Vl].
+      assert (Gl : get_gen s (lf_id l) = GNew) by (apply GN; now left).
+      destruct (enter_leaf_step f s 0%N l _ s' r o E O Gl Dl Vl OK)
+        as (s2 & ov & o1 & Hst & E2 & Dq2 & Hov & OK2 & F2).
+      assert (GN2 : forall x, In x (gs_ids gs) -> get_gen s2 x = GNew).
+      { intros x Hx. destruct F2 as (_ & _ & FG & _). rewrite FG; [apply GN; now right|].
+        intros [Heq|[]]. subst x. apply (Disj (lf_id l)); [now left|exact Hx]. }
+      assert (WU2 : Forall (g_wf (defs s2)) gs) by (destruct F2 as (_ & -> & _); exact WU).
+      assert (SU2 : Forall (g_st s2) gs).
+      { eapply gs_st_frame; [exact F2| |exact SU]. intros x Hx [Heq|[]]. subst x.
+        apply N0, in_or_app. now right. }
+      assert (T2 : tyme s2 = tyme s) by (destruct F2 as (-> & _); reflexivity).
+      destruct (IH f s2 o1 s' r E2 O GN2 WU2 SU2 NDU OK2) as (its & o' & Hp & -> & Dq' & G' & OK' & F').
+      rewrite T2 in Hp. cbn [gs_enter]. rewrite Hst, Hp. rewrite Dq', Dq2, <- app_assoc.
+      assert (FF : frame (gs_ids (GLeaf l :: gs)) (0%N :: gs_ids (GLeaf l :: gs)) s s').
+      { eapply frame_trans; [eapply frame_weaken; [| |exact F2]; incl_gs
+                            |eapply frame_weaken; [| |exact F']; incl_gs]. }
+      destruct ov as [v|].
+      * destruct Hov as [Gv Lv].
+        eexists _, _. split; [reflexivity|]. split; [reflexivity|]. split; [reflexivity|].
+        split; [|split; assumption].
+        constructor; [|exact G']. cbn [it_ok].
+        eapply lv_ok_frame; [exact F'| |exact Gv]. unfold lv_id. rewrite Lv. apply (Disj (lf_id l)). now left.
+      * eexists _, _. split; [reflexivity|]. split; [reflexivity|]. split; [reflexivity|].
+        split; [exact G'|split; assumption].
+    + destruct Wg as (NV & [kids0 Dn] & DK & VK). destruct Sg as [Do Dq].
+      assert (Nn0 : n <> 0%N) by (intro; subst n; apply N0; now left).
+      assert (NDk : NoDup (map lf_id kids)).
+      { apply NoDup_app_l in ND. now apply NoDup_cons_iff in ND as [_ ND]. }
+      rewrite enter_own_S in E. cbv zeta in E.
+      set (s0 := set_done s n (Some false)) in *.
+      pose proof (oof_gen_start_enter _ _ _ _ _ _ _ E O) as O1.
+      destruct (gen_start tk f s0 n) as [s1 g] eqn:Es. cbn [fst] in O1.
+      assert (GK : Forall (fun l => get_gen s0 (lf_id l) = GNew) kids).
+      { rewrite Forall_forall. intros l Hl. unfold s0. rewrite gen_set_done. apply GN. right. apply in_or_app. left. now apply in_map. }
+      assert (Gn : get_gen s0 n = GNew) by (unfold s0; rewrite gen_set_done; apply GN; now left).
+      destruct (group_start f s0 n kids0 kids o s1 g Es O1 Gn Dn Do Dq GK DK NDk VK NV
+                  (ok_done_invis _ _ _ _ NV OK)) as (kids' & o1 & Hk & -> & Gs & Dqs & Ks & OK1 & F1).
+      change (tyme s0) with (tyme s) in Hk.
+      assert (Hsub : forall x, In x (map lv_id kids') -> In x (map lf_id kids)).
+      { intros x. rewrite lv_id_map. apply subl_In. apply subl_map. eapply lfs_enter_subl; exact Hk. }
+      assert (F01 : frame (n :: map lf_id kids) [n] s s1).
+      { eapply frame_trans; [|exact F1]. unfold s0. apply frame_done. apply frame_refl. }
+      assert (T1 : tyme s1 = tyme s) by (destruct F01 as (-> & _); reflexivity).
+      rewrite T1 in E.
+      set (s2 := set_deeds s1 0%N (deeds (get_sched s1 0%N) ++ [DDeed n (tyme s)])) in *.
+      assert (F2 : frame (n :: map lf_id kids) [0%N; n] s s2).
+      { unfold s2. apply frame_deeds; [now left|]. eapply frame_weaken; [| |exact F01]; [apply incl_refl|incl_gs]. }
+      assert (Dq2 : deeds (get_sched s2 0%N) = deeds (get_sched s 0%N) ++ [DDeed n (tyme s)]).
+      { unfold s2. rewrite deeds_set_deeds_same. destruct F01 as (_ & _ & _ & FS). rewrite FS; [reflexivity|].
+        intros [Heq|[]]. now apply Nn0. }
+      assert (GN2 : forall x, In x (gs_ids gs) -> get_gen s2 x = GNew).
+      { intros x Hx. destruct F2 as (_ & _ & FG & _). rewrite FG; [apply GN; right; apply in_or_app; now right|].
+        intro Hin. exact (Disj x Hin Hx). }
+      assert (WU2 : Forall (g_wf (defs s2)) gs) by (destruct F2 as (_ & -> & _); exact WU).
+      assert (SU2 : Forall (g_st s2) gs).
+      { eapply gs_st_frame; [exact F2| |exact SU]. intros x Hx [Heq|[Heq|[]]]; subst x.
+        - apply N0, in_or_app. now right.
+        - apply (Disj n); [now left|exact Hx]. }
+      destruct (IH f s2 o1 s' r E O GN2 WU2 SU2 NDU (ok_deeds _ _ _ _ OK1)) as (its & o' & Hp & -> & Dq' & G' & OK' & F').
+      change (tyme s2) with (tyme s1) in Hp. rewrite T1 in Hp.
+      cbn [gs_enter]. rewrite Hk, Hp. rewrite Dq', Dq2, <- app_assoc.
+      eexists _, _. split; [reflexivity|]. split; [reflexivity|]. split; [reflexivity|].
+      split; [|split; [exact OK'|]].
+      * constructor; [|exact G'].
+        eapply it_ok_frame; [exact F'| |].
+        -- intros x Hx. cbn [it_ids] in Hx.
+           assert (Hin : In x (n :: map lf_id kids)).
+           { destruct Hx as [<-|Hx]; [now left|right; now apply Hsub]. }
+           split; [exact (Disj x Hin)|].
+           intros [Heq|Hx2]; [|exact (Disj x Hin Hx2)].
+           subst x. apply N0, in_or_app. now left.
+        -- cbn [it_ok]. split; [exact Gs|]. split; [|exact Ks].
+           unfold s2. rewrite sched_set_deeds_other by exact Nn0. exact Dqs.
+      * eapply frame_trans; [eapply frame_weaken; [| |exact F2]; incl_gs
+                            |eapply frame_weaken; [| |exact F']; incl_gs].
+Qed.
+
 End Run.
